@@ -297,6 +297,7 @@ def run(repo, rep, tier):
         else:
             rep.ok("R-POS", MOD + "." + q, "first component is to_positive()-normalised on %d returning path(s)" % len(rets))
     sep_checks(repo, rep, alg)
+    circle_selection(repo, rep)
     units.check_functions(repo, rep, [(MOD, q) for pair in PAIRS for q in pair] +
                           [(MOD, "angular_separation"), (MOD, "relative_position_angle"), (MOD, "circle_diameter"),
                            (MOD, "straight_line"), (MOD, "parallactic_angle"), (MOD, "ecliptic_horizon"),
@@ -398,3 +399,74 @@ def sep_checks(repo, rep, alg):
         rep.ok("R-E4-ID", MOD + "." + q, "atan2 arguments == (v1.east2, v1.north2)/cos(D1)  (cross/dot product form)", obligation=True)
     else:
         rep.violation("R-E4-ID", MOD + "." + q, "cross-dot", "position-angle numerator/denominator differ from the cross/dot product form (x ok=%s, y ok=%s)" % (okx, oky), obligation=True)
+
+
+def eval_order(t, values):
+    """evaluate a term built from phi / comparisons / and / or / not over the given leaf values"""
+    if t in values:
+        return values[t]
+    h = t[0]
+    if h == "phi":
+        return eval_order(t[2], values) if eval_order(t[1], values) else eval_order(t[3], values)
+    if h == "cmp":
+        a, b = eval_order(t[2], values), eval_order(t[3], values)
+        return {"GtE": a >= b, "Gt": a > b, "LtE": a <= b, "Lt": a < b, "Eq": a == b, "NotEq": a != b}[t[1]]
+    if h == "and":
+        return all(eval_order(x, values) for x in t[1:])
+    if h == "or":
+        return any(eval_order(x, values) for x in t[1:])
+    if h == "not":
+        return not eval_order(t[1], values)
+    if h == "bool":
+        return t[1]
+    raise AnalysisError("selection logic uses something other than comparisons of the three separations: %s" % (t[0],))
+
+
+def circle_selection(repo, rep):
+    """circle_diameter: the three mutual separations are touched only through comparisons, so the selection of
+    the longest side is decided exhaustively over the 13 weak orderings of three values"""
+    rep.rule("R-ORDERINGS", "selection logic that only compares values is evaluated over every weak ordering of those values (finite, exhaustive)")
+    q = "circle_diameter"
+    rep.fn(MOD, q)
+    fn = repo.func(MOD, q)
+    nm = [a.arg for a in fn.args.args]
+    t = ret_term(repo, MOD, q, arg_terms={n: ("angle", T.sym(n.upper())) for n in nm})
+    site = MOD + "." + q
+    seps = sorted({x for x in T.walk(t) if x[0] == "call" and x[1] == "red" and x[2][0] == "call" and x[2][1] == "degof"
+                   and x[2][2][0] == "call" and x[2][2][1] == "Coordinates.angular_separation"}, key=T.key)
+    top = t[1] if t[0] == "angle" else t
+    if len(seps) != 3 or top[0] != "phi" or top[1][0] != "cmp" or top[1][1] not in ("GtE", "Gt"):
+        rep.violation("R-ORDERINGS", site, "shape", "result is not `a if a >= sqrt(b^2 + c^2) else circumscribed diameter` over the three mutual separations")
+        return
+    A = top[1][2]
+    rhs = top[1][3]
+    sq = [x for x in (rhs[2][1:] if rhs[0] == "call" and rhs[1] == "sqrt" and rhs[2][0] == "add" else ())]
+    BC = []
+    for x in sq:
+        if x[0] == "pow" and x[2] == T.num(2):
+            BC.append(x[1])
+    if len(BC) != 2 or top[2] != A:
+        rep.violation("R-ORDERINGS", site, "shape", "obtuse-triangle test is not a >= sqrt(b*b + c*c) returning a")
+        return
+    import itertools
+    bad = []
+    n = 0
+    for ranks in itertools.product((1, 2, 3), repeat=3):
+        if sorted(set(ranks)) != list(range(1, len(set(ranks)) + 1)):
+            continue          # canonical weak orderings only (13 of them)
+        n += 1
+        vals = dict(zip(seps, ranks))
+        try:
+            a, b, c = eval_order(A, vals), eval_order(BC[0], vals), eval_order(BC[1], vals)
+        except AnalysisError as e:
+            rep.violation("R-ORDERINGS", site, "not-comparisons", str(e))
+            return
+        if a != max(ranks) or sorted((a, b, c)) != sorted(ranks):
+            bad.append((ranks, (a, b, c)))
+    rep.floor("weak orderings of three separations", n, 13)
+    if bad:
+        rep.violation("R-ORDERINGS", site, "longest-side",
+                      "for separations ordered like (d12, d13, d23) = %s the code takes %s as (longest, other, other): the longest mutual separation is not selected, "
+                      "so the enclosing-circle diameter is computed from the wrong side (%d of 13 orderings affected)" % (bad[0][0], bad[0][1], len(bad)))
+    else:
+        rep.ok("R-ORDERINGS", site, "a is the largest of the three separations and (a, b, c) a permutation of them in all 13 weak orderings")
